@@ -40,6 +40,11 @@ func files(ext string, helpers bool) map[string]string {
 		"layouts/default/.parts/q" + ext: `{{define "dotlayout"}}DL{{end}}`,
 		"layouts/alt/Sub Dir/r" + ext:    `{{define "spacedlayout"}}SL{{end}}`,
 	}
+	// nested layout and view names: ("a","b/c") and ("a/b","c") spell the same path when joined
+	f["layouts/a/x"+ext] = `{{define "xa"}}XA{{end}}`
+	f["layouts/a/b/main"+ext] = `{{define "page"}}AB<{{template "title" .}}|{{template "content" .}}|{{template "h" .}}>{{end}}{{define "title"}}T-ab{{end}}{{define "content"}}C-ab{{end}}{{define "h"}}H-ab{{end}}`
+	f["views/b/c/v"+ext] = `{{define "content"}}C-view-b/c{{end}}`
+	f["views/c/v"+ext] = `{{define "content"}}C-view-c{{end}}{{define "title"}}T-view-c{{end}}`
 	if helpers {
 		f["helpers/h"+ext] = `{{define "h"}}H[{{.}}]{{template "h2" .}}{{end}}`
 		f["helpers/sub/h2"+ext] = `{{define "h2"}}(h2){{end}}`
@@ -74,6 +79,12 @@ var requestPool = []Request{
 	{Kind: "view", Layout: "default", View: "v1"}, {Kind: "view", Layout: "default", View: "v2"},
 	{Kind: "view", Layout: "alt", View: "v1"}, {Kind: "view", Layout: "", View: "v2"},
 	{Kind: "view", Layout: "default", View: "missing"},
+}
+
+// nestedPool: layout and view names with a '/' whose concatenations coincide.
+var nestedPool = []Request{
+	{Kind: "view", Layout: "a", View: "b/c"}, {Kind: "view", Layout: "a/b", View: "c"}, {Kind: "view", Layout: "a", View: "c"},
+	{Kind: "layout", Layout: "a"}, {Kind: "layout", Layout: "a/b"},
 }
 
 // executor abstracts html/text templates.
@@ -465,6 +476,13 @@ func run(c *fw.Ctx) {
 		}
 	}
 	rec(nil)
+	// nested names: all sequences of <= 2 requests over the nested pool
+	for _, r1 := range nestedPool {
+		seqs = append(seqs, []Request{r1})
+		for _, r2 := range nestedPool {
+			seqs = append(seqs, []Request{r1, r2})
+		}
+	}
 	c.R.Info["request_sequences"] = len(seqs)
 	for _, html := range []bool{true, false} {
 		for _, helpers := range []bool{true, false} {
@@ -595,7 +613,7 @@ func replay(wj json.RawMessage) (*fw.Violation, error) {
 
 func init() {
 	fw.Register(&fw.Check{ID: "C19", Level: "model_checking",
-		Rule: "sequential: every sequence of <=3 requests from {Base, Layout(default|alt|''), View(default,v1|v2), View(alt,v1), View('',v2), View(default,missing)} x {HTML, text provider} x {helpers present, absent} x {cached, uncached}, each result rendered and compared (output of template 'page' and the set of defined template names) with a reference built directly on html/template / text/template (helpers, then layout files, then view files), and cached vs uncached outputs compared position by position; fault: every failing filespace call (ReadFile/ReadDir/IsDir...) during a first request followed by the same request on the healthy filespace; concurrent: 36 programs of 2-3 threads issuing first requests (same view, different views, view + layout, base + view, two requests per thread) under every schedule with <= bound preemptions with a happens-before state cache, callers' renderings compared with the reference and the race oracle applied to the providers' cache maps and fields. states = distinct schedule traces (concurrent part)",
+		Rule: "sequential: every sequence of <=3 requests from {Base, Layout(default|alt|''), View(default,v1|v2), View(alt,v1), View('',v2), View(default,missing)} x {HTML, text provider} x {helpers present, absent} x {cached, uncached}, plus all sequences of <=2 requests over nested names (layouts a and a/b, views b/c and c: joined names coincide), each result rendered and compared (output of template 'page' and the set of defined template names) with a reference built directly on html/template / text/template (helpers, then layout files, then view files), and cached vs uncached outputs compared position by position; fault: every failing filespace call (ReadFile/ReadDir/IsDir...) during a first request followed by the same request on the healthy filespace; concurrent: 36 programs of 2-3 threads issuing first requests (same view, different views, view + layout, base + view, two requests per thread) under every schedule with <= bound preemptions with a happens-before state cache, callers' renderings compared with the reference and the race oracle applied to the providers' cache maps and fields. states = distinct schedule traces (concurrent part)",
 		Run: run, Replay: replay,
 		Assumptions: []string{"one file set with overlapping definitions on every layer; walk order = sorted paths", "2-3 threads; bounds as reported; a racing map read/write is what makes Go abort with 'concurrent map read and map write', which the race oracle decides deterministically"}})
 }
